@@ -366,9 +366,6 @@ func genProgram(rt *rapid.T, pf *profile) *Program {
 			if i == 0 && p.Mode == "shrink" && (o.K == model.MCompute || o.K == model.CCompute) && o.Key == t%p.Hot {
 				o.Fn = model.FnDelete
 			}
-			if p.Tick && o.K == model.CGetTTL {
-				o.K = model.CGetExp // the remaining TTL is computed from a later clock read than the visibility decision
-			}
 			ops = append(ops, o)
 		}
 		p.Threads = append(p.Threads, ops)
